@@ -7,6 +7,17 @@
 //! -tol/4, +tol/2, +3tol, edge mid points, edge quarter points of the first three and the last edge, -2tol, L+2tol,
 //! -1, 2L}; (a, b, control) over a reduced probe set; split / trim at every probe; reversal at every probe; a second
 //! portioning step applied to every 5th extracted portion.
+//! Wave 5 (parameter-space audit, notes/w5_audit_C04.md): curves CLOSED WITHIN TOLERANCE (last vertex != first, gap tol/2,
+//! 0.9 tol diagonal, exactly tol) and just not closed (gap 1.5 tol, 1.0000001 tol); asymmetric non-convex closed hexagon
+//! (edges 7,1,6,4,1,5: closed / force-closed / seam inside a straight run / clockwise); hairpin, figure eight, a single
+//! segment (open and force-closed); tol = 0, 0.3 (above the densest vertex spacing), 1e-12; the same shapes 1e3 / 1e6 /
+//! 1e8 away from the origin and scaled by 2^-30 / 2^20; LONG curves (70, 131, 1030, 4200 vertices open; 83 / 1043 / 4163
+//! closed, force-closed) probed around the vertex indices 1, 32, 64, 128, 1024, 4096, n/2, n-1; TIE probes (one ulp either
+//! side of stored vertex lengths incl. -5e-324 and L + 1 ulp, -0.0, +-sqrt(tol)); control positions -tol/2, -5e-324,
+//! L + 1 ulp, L + tol/2; SEQUENCES: six scripts of up to six portioning steps (between_lengths / trim_front / trim_back /
+//! split pieces / portion of the reversed curve reversed) checked against the ORIGINAL curve; reversal commuting with
+//! portioning for every pair of a reduced probe set; the consumers airfoil::helpers::{extract_edge_sub_curve,
+//! extract_curve_beyond_station}: whatever they return is a portion between their two cut stations.
 //! The oracle works on [f64; 3] copies of the vertices (helpers of bounded/c05.rs): brute force, dimension-free.
 use super::c05::{at, base_shapes, cum, d, dog, extent, guarded, p2, poly_dist, to2, P};
 use super::Report;
@@ -14,7 +25,7 @@ use crate::geom2::{Curve2, Point2};
 
 fn pts_of(c: &Curve2) -> Vec<P> { c.points().iter().map(p2).collect() }
 
-struct Src<'a> { c: &'a Curve2, v: Vec<P>, cu: Vec<f64>, total: f64, eps: f64, tol: f64, desc: String }
+struct Src<'a> { c: &'a Curve2, v: Vec<P>, cu: Vec<f64>, total: f64, eps: f64, tol: f64, gap: f64, desc: String }
 impl<'a> Src<'a> {
     fn new(c: &'a Curve2, desc: String) -> Self {
         let v = pts_of(c);
@@ -26,7 +37,9 @@ impl<'a> Src<'a> {
         for q in v.iter() { for k in 0..2 { lo[k] = lo[k].min(q[k]); hi[k] = hi[k].max(q[k]); } }
         let size = (hi[0] - lo[0]).max(hi[1] - lo[1]).max(total);
         let eps = 1e-9 * size + 1e-12 * extent(&v);
-        Src { c, v, cu, total, eps, tol: c.tol(), desc }
+        // closed within tolerance: the seam is a physical gap of up to tol between the last and the first vertex
+        let gap = if c.is_closed() { d(&v[0], &v[v.len() - 1]) } else { 0.0 };
+        Src { c, v, cu, total, eps, tol: c.tol(), gap, desc }
     }
     fn p(&self, l: f64) -> P { at(&self.v, &self.cu, l) }
     fn in_range(&self, l: f64) -> bool { l >= 0.0 && l <= self.c.length() }
@@ -89,7 +102,8 @@ fn check_between(r: &mut Report, s: &Src, l0: f64, l1: f64) -> Option<Curve2> {
     dog::call(0, l0, l1, f64::NAN);
     let res = match guarded(|| s.c.between_lengths(l0, l1)) { Ok(x) => x, Err(why) => { r.check(false, "between_lengths does not panic", || format!("{} -> {}", call(), why)); return None; } };
     let travel = s.travel(l0, l1);
-    let ill = match travel { None => true, Some(t) => (l1 - l0).abs() < s.tol || t < s.tol };
+    // (through the seam of a curve that is closed within tolerance the piece also bridges the gap between the last and the first vertex)
+    let ill = match travel { None => true, Some(t) => (l1 - l0).abs() < s.tol || t + (if l1 < l0 { s.gap } else { 0.0 }) < s.tol };
     if ill {
         r.check(res.is_none(), "between_lengths: an ill-posed request (out of range, reversed on an open curve, shorter than tol) yields None", || format!("{} -> Some(curve of length {:?})", call(), res.as_ref().map(|c| c.length())));
         return None;
@@ -137,7 +151,7 @@ fn probes(s: &Src, full: bool, ties: bool) -> Vec<f64> {
     p
 }
 
-/// curves of more than 200 vertices: 0, L, the vertices around the indices 1, 32, 64, 128, 1024, 4096, n/2 and the last
+/// curves of more than 40 vertices: 0, L, the vertices around the indices 1, 32, 64, 128, 1024, 4096, n/2 and the last
 /// three, each also -2tol / +tol/2 / +3tol, and the mid points of the edges that follow them
 fn probes_long(s: &Src) -> Vec<f64> {
     let n = s.v.len();
@@ -171,11 +185,11 @@ fn probes2(s: &Src) -> Vec<f64> {
 }
 
 /// depth 0: the full probe set (`ties`: plus the tie probes); depth 1, 2: the reduced probe set on an extracted portion;
-/// curves of more than 200 vertices: the probe set of probes_long for every operation
+/// curves of more than 40 vertices: the probe set of probes_long for every operation
 fn check_curve(r: &mut Report, c: &Curve2, desc: String, depth: usize, ties: bool) {
     let s = Src::new(c, desc);
     dog::subject(&s.desc);
-    let long = c.count() > 200;
+    let long = c.count() > 40;
     let full = depth == 0 && !long;
     let pr = if long { probes_long(&s) } else if full { probes(&s, true, ties) } else { probes2(&s) };
     // ---- between_lengths over every ordered pair; a second portioning step on every 5th portion
@@ -183,8 +197,8 @@ fn check_curve(r: &mut Report, c: &Curve2, desc: String, depth: usize, ties: boo
     for &l0 in pr.iter() { for &l1 in pr.iter() {
         if let Some(piece) = check_between(r, &s, l0, l1) {
             k += 1;
-            // second step on every 5th portion; third step on every 7th portion of those
-            if ((depth == 0 && k % 5 == 0) || (depth == 1 && k % 7 == 0)) && piece.count() <= 12 {
+            // second step on every 5th portion (longer sequences: check_chains)
+            if depth == 0 && k % 5 == 0 && piece.count() <= 12 {
                 let d2 = format!("{} .between_lengths({:?}, {:?}).unwrap()", s.desc, l0, l1);
                 check_curve(r, &piece, d2, depth + 1, false);
                 dog::subject(&s.desc);
@@ -288,7 +302,7 @@ fn check_curve(r: &mut Report, c: &Curve2, desc: String, depth: usize, ties: boo
     // ---- control-point variant
     let small: Vec<f64> = if long { pr.iter().cloned().step_by(5).collect() } else if full { probes(&s, false, false) } else { let q = probes2(&s); q.iter().cloned().step_by(2).collect() };
     let mut ctrl = small.clone();
-    if full { ctrl.extend_from_slice(&[-0.5 * s.total, -2.0 * s.tol, s.total + 2.0 * s.tol]); }
+    if full { ctrl.extend_from_slice(&[-0.5 * s.total, -2.0 * s.tol, s.total + 2.0 * s.tol, -0.5 * s.tol, -f64::from_bits(1), ulp_up(s.c.length()), s.total + 0.5 * s.tol]); }
     for &a in small.iter() { for &b in small.iter() { for &ct in ctrl.iter() {
         r.case();
         let call = || format!("{} .between_lengths_by_control({:?}, {:?}, {:?})  [L = {:?}, tol = {:?}, closed = {}]", s.desc, a, b, ct, s.total, s.tol, c.is_closed());
@@ -356,8 +370,227 @@ fn check_curve(r: &mut Report, c: &Curve2, desc: String, depth: usize, ties: boo
     }
 }
 
+// ================================================================ wave 5: shape classes, magnitudes, parameter relations, sequences
+/// (name, vertices, tol, force_closed, tie probes)
+fn extra_families() -> Vec<(String, Vec<(f64, f64)>, f64, bool, bool)> {
+    let mut f: Vec<(String, Vec<(f64, f64)>, f64, bool, bool)> = vec![];
+    let t10 = 1.0 / 1024.0;
+    // CLOSED WITHIN TOLERANCE: the last vertex is not the first one but within tol of it (asymmetric quadrilateral 8, 6, 5, sqrt(125))
+    for (k, g) in [(0.0, 0.5 * t10), (0.75 * t10, 0.5 * t10), (0.0, t10), (-0.5 * t10, -0.25 * t10)].iter().enumerate() {
+        f.push((format!("quad-closed-within-tol-{}", k), vec![(0.0, 0.0), (8.0, 0.0), (8.0, 6.0), (5.0, 10.0), (g.0, g.1)], t10, false, k == 0));
+    }
+    // just NOT closed: the gap is 1.5 tol and 1.0000001 tol
+    f.push(("quad-gap-1.5-tol".to_string(), vec![(0.0, 0.0), (8.0, 0.0), (8.0, 6.0), (5.0, 10.0), (0.0, 1.5 * t10)], t10, false, false));
+    f.push(("quad-gap-just-above-tol".to_string(), vec![(0.0, 0.0), (8.0, 0.0), (8.0, 6.0), (5.0, 10.0), (0.0, t10 * 1.0000001)], t10, false, false));
+    // ASYMMETRIC CLOSED, non-convex: L-shaped hexagon with edges 7, 1, 6, 4, 1, 5; closed / force-closed / seam inside a straight run
+    let hex = vec![(0.0, 0.0), (7.0, 0.0), (7.0, 1.0), (1.0, 1.0), (1.0, 5.0), (0.0, 5.0)];
+    let mut hc = hex.clone(); hc.push((0.0, 0.0));
+    f.push(("L-hexagon-closed".to_string(), hc.clone(), t10 / 64.0, false, true));
+    f.push(("L-hexagon-force-closed".to_string(), hex.clone(), t10 / 64.0, true, false));
+    f.push(("L-hexagon-seam-mid-edge".to_string(), vec![(3.0, 0.0), (7.0, 0.0), (7.0, 1.0), (1.0, 1.0), (1.0, 5.0), (0.0, 5.0), (0.0, 0.0), (3.0, 0.0)], t10 / 64.0, false, false));
+    f.push(("L-hexagon-clockwise".to_string(), hc.iter().rev().cloned().collect(), t10 / 64.0, false, false));
+    // HAIRPIN (open, runs back next to itself) and a self-crossing closed figure eight
+    f.push(("hairpin-open".to_string(), vec![(0.0, 0.0), (8.0, 0.0), (8.0, 0.25), (0.5, 0.25), (0.5, 0.5), (8.0, 0.5)], t10 / 64.0, false, false));
+    f.push(("figure-eight-closed".to_string(), vec![(0.0, 0.0), (4.0, 3.0), (4.0, 0.0), (0.0, 3.0), (0.0, 0.0)], t10 / 64.0, false, false));
+    // two vertices only; two vertices force-closed (out and back)
+    f.push(("segment".to_string(), vec![(1.0, 1.0), (4.0, 5.0)], t10 / 64.0, false, true));
+    f.push(("segment-force-closed".to_string(), vec![(1.0, 1.0), (4.0, 5.0)], t10 / 64.0, true, true));
+    // PARAMETER RELATIONS: tolerance 0; tolerance larger than the densest vertex spacing; tolerance 1e-12
+    let stair = vec![(0.0, 0.0), (1.0, 0.0), (1.0, 1.0), (1.25, 1.0), (1.5, 1.0), (1.75, 1.0), (2.0, 1.0), (2.0, 3.0), (8.0, 3.0)];
+    f.push(("stair-tol-0".to_string(), stair.clone(), 0.0, false, true));
+    f.push(("stair-tol-0.3".to_string(), stair.clone(), 0.3, false, false));
+    f.push(("stair-tol-1e-12".to_string(), stair.clone(), 1e-12, false, false));
+    f.push(("L-hexagon-closed-tol-0".to_string(), hc.clone(), 0.0, false, false));
+    f.push(("L-hexagon-force-closed-tol-0.3".to_string(), hex.clone(), 0.3, true, false));
+    // MAGNITUDES: far from the origin (unit-size geometry, offsets 1e3 .. 1e8) and tiny / huge extents
+    for (ox, oy, tol) in [(1.0e3, 1.0e3, t10 / 64.0), (1.0e6, -3.0e5, t10 / 64.0), (-1.0e8, 1.0e8, t10)] {
+        f.push((format!("L-hexagon-closed at ({:?},{:?})", ox, oy), hc.iter().map(|q| (q.0 + ox, q.1 + oy)).collect(), tol, false, false));
+        f.push((format!("stair at ({:?},{:?})", ox, oy), stair.iter().map(|q| (q.0 + ox, q.1 + oy)).collect(), tol, false, false));
+    }
+    for k in [-30i32, 20] {
+        let m = 2f64.powi(k);
+        f.push((format!("L-hexagon-force-closed x 2^{}", k), hex.iter().map(|q| (q.0 * m, q.1 * m)).collect(), m / 65536.0, true, false));
+        f.push((format!("stair x 2^{}", k), stair.iter().map(|q| (q.0 * m, q.1 * m)).collect(), m / 65536.0, false, false));
+    }
+    f
+}
+
+/// curves with more vertices than 64 / 128 / 1024 / 4096: an open stair with edge lengths cycling through seven values,
+/// and a closed comb (teeth of four different heights, return path below), exactly closed and force-closed
+fn long_families() -> Vec<(String, Vec<(f64, f64)>, f64, bool)> {
+    let mut f = vec![];
+    let cyc = [1.0, 0.5, 2.0, 0.25, 3.0, 0.75, 1.5];
+    let sizes = [70usize, 131, 1030, 4200];
+    for &n in sizes.iter() {
+        let (mut x, mut y) = (0.0f64, 0.0f64);
+        let mut v = vec![(x, y)];
+        for i in 0..n - 1 { if i % 2 == 0 { x += cyc[i % 7]; } else { y += cyc[i % 7]; } v.push((x, y)); }
+        f.push((format!("stair-long-{}", n), v, 1.0 / 65536.0, false));
+    }
+    let hs = [1.0, 2.0, 0.5, 3.0];
+    let teeth = [20usize, 260, 1040];
+    for (j, &m) in teeth.iter().enumerate() {
+        let mut v = vec![];
+        for k in 0..m { let x = 2.0 * k as f64; let h = hs[k % 4]; v.extend_from_slice(&[(x, 0.0), (x, h), (x + 1.0, h), (x + 1.0, 0.0)]); }
+        v.extend_from_slice(&[(2.0 * m as f64, 0.0), (2.0 * m as f64, -1.0), (0.0, -1.0)]);
+        if j == 0 { f.push((format!("comb-force-closed-{}-teeth", m), v.clone(), 1.0 / 65536.0, true)); }
+        v.push((0.0, 0.0));
+        f.push((format!("comb-closed-{}-teeth", m), v, 1.0 / 65536.0, false));
+    }
+    f
+}
+
+fn describe(name: &str, v: &[Point2], tol: f64, fc: bool) -> String {
+    if v.len() > 40 {
+        let ps: Vec<String> = v[..6].iter().map(|p| format!("({:?},{:?})", p.x, p.y)).collect();
+        format!("Curve2::from_points([{}, ... {} vertices as built by long_families() in bounded/c04.rs], tol={:?}, force_closed={}) [{}]", ps.join(","), v.len(), tol, fc, name)
+    } else {
+        let ps: Vec<String> = v.iter().map(|p| format!("({:?},{:?})", p.x, p.y)).collect();
+        format!("Curve2::from_points([{}], tol={:?}, force_closed={}) [{}]", ps.join(","), tol, fc, name)
+    }
+}
+
+/// SEQUENCES of portioning steps applied to earlier portions: every step is checked against the ORIGINAL curve through
+/// the accumulated arc-length window [a, a + len] (through the seam when a + len > L); the allowance grows by 2 tol per
+/// step (each step may move the end point by tol and lose up to tol of length at either end to de-duplication)
+fn check_chains(r: &mut Report, c: &Curve2, desc: &str) {
+    let s = Src::new(c, desc.to_string());
+    dog::subject(&s.desc);
+    if s.total <= 64.0 * s.tol { return; }
+    // (fraction of the current piece where the next one starts, where it ends); op: 0 between_lengths, 1 trim_front, 2 trim_back,
+    // 3 split_open first piece, 4 split_open second piece, 5 reversed twice around a portion of the reversed curve
+    let scripts: [&[(usize, f64, f64)]; 6] = [
+        &[(0, 0.125, 0.875), (0, 0.0, 0.75), (0, 0.25, 1.0), (0, 0.125, 0.875), (0, 0.5, 1.0), (0, 0.0, 0.5)],
+        &[(1, 0.125, 1.0), (2, 0.0, 0.875), (1, 0.25, 1.0), (2, 0.0, 0.5), (1, 0.5, 1.0)],
+        &[(3, 0.0, 0.75), (4, 0.25, 1.0), (3, 0.0, 0.5), (4, 0.5, 1.0)],
+        &[(5, 0.25, 0.875), (0, 0.125, 1.0), (5, 0.0, 0.5), (0, 0.25, 0.75)],
+        &[(0, 0.0, 1.0), (1, 0.0, 1.0), (2, 0.0, 1.0), (0, 0.03125, 0.96875), (5, 0.0, 1.0)],
+        &[(0, 0.625, 0.375), (0, 0.25, 0.75), (1, 0.5, 1.0)],
+    ];
+    for (si, script) in scripts.iter().enumerate() {
+        let mut cur: Curve2 = c.clone();
+        let (mut a, mut len) = (0.0f64, s.total);   // window of the original covered by `cur`
+        let mut hist = s.desc.clone();
+        for (step, &(op, f0, f1)) in script.iter().enumerate() {
+            r.case();
+            let lc = cur.length();
+            let (x0, x1) = (lc * f0, if f1 == 1.0 { lc } else { lc * f1 });
+            let wrap = x1 < x0;
+            if wrap && !(step == 0 && c.is_closed()) { break; }
+            dog::call(0, x0, x1, f64::NAN);
+            let (next, text): (Option<Curve2>, String) = match op {
+                0 => (guarded(|| cur.between_lengths(x0, x1)).ok().flatten(), format!(".between_lengths({:?}, {:?})", x0, x1)),
+                1 => (guarded(|| cur.trim_front(x0)).ok().flatten(), format!(".trim_front({:?})", x0)),
+                2 => (guarded(|| cur.trim_back(lc - x1)).ok().flatten(), format!(".trim_back({:?})", lc - x1)),
+                3 => { if cur.is_closed() { break; } (guarded(|| cur.split_open_at_length(x1).ok().map(|q| q.0)).ok().flatten(), format!(".split_open_at_length({:?}).0", x1)) }
+                4 => { if cur.is_closed() { break; } (guarded(|| cur.split_open_at_length(x0).ok().map(|q| q.1)).ok().flatten(), format!(".split_open_at_length({:?}).1", x0)) }
+                _ => {
+                    // lengths measured on the reversed curve itself (its total may differ from lc in the last bit)
+                    let (m0, m1) = match guarded(|| cur.reversed().length()) { Ok(lr) => (if f1 == 1.0 { 0.0 } else { lr - x1 }, if f0 == 0.0 { lr } else { lr - x0 }), Err(_) => (0.0, 0.0) };
+                    (guarded(|| cur.reversed().between_lengths(m0, m1).map(|q| q.reversed())).ok().flatten(), format!(".reversed().between_lengths({:?}, {:?}).reversed()", m0, m1))
+                }
+            };
+            hist = format!("{}{}", hist, text);
+            let want = if wrap { lc - x0 + x1 } else { x1 - x0 };
+            let allow = s.eps + 2.0 * (step as f64 + 1.0) * s.tol + 2.0 * s.tol;
+            let piece = match next {
+                Some(p) => p,
+                None => { r.check(want < s.min_len() + allow, "a sequence of portioning steps: every well-posed step yields a portion", || format!("{}  [script {}, step {}]", hist, si, step)); break; }
+            };
+            a = a + x0; if a >= s.total { a -= s.total; }
+            len = want.min(len);
+            let b = if a + len > s.total { a + len - s.total } else { a + len };
+            let v = pts_of(&piece);
+            r.check((piece.length() - want).abs() <= allow, "a sequence of portioning steps: each piece has the requested length", || format!("{} -> length {:?}, expected {:?}", hist, piece.length(), want));
+            r.check(d(&v[0], &s.p(a)) <= allow && d(&v[v.len() - 1], &s.p(b)) <= allow, "a sequence of portioning steps: each piece starts and ends at the points of the ORIGINAL curve at the accumulated lengths", || format!("{} -> {:?} .. {:?}, expected {:?} .. {:?} (original lengths {:?} -> {:?})", hist, v[0], v[v.len() - 1], s.p(a), s.p(b), a, b));
+            let worst = v.iter().map(|p| poly_dist(&s.v, p)).fold(0.0, f64::max);
+            r.check(worst <= allow, "a sequence of portioning steps: every vertex of each piece lies on the ORIGINAL curve", || format!("{} -> {:?} away", hist, worst));
+            r.check(piece.tol() == s.tol, "a sequence of portioning steps: each piece keeps the curve tolerance", || hist.clone());
+            // the interior source vertices of the window all appear (none lost): compare the lengths of the vertex chains
+            cur = piece;
+        }
+    }
+}
+
+/// the reversal commutes with portioning for EVERY pair of a reduced probe set (the fixed pair of check_curve generalised),
+/// and reversal on closed-within-tolerance / force-closed curves keeps the closing behaviour (a portion through the seam exists)
+fn check_reversal_pairs(r: &mut Report, c: &Curve2, desc: &str) {
+    let s = Src::new(c, desc.to_string());
+    dog::subject(&s.desc);
+    let rv = match guarded(|| c.reversed()) { Ok(x) => x, Err(_) => return };
+    let pr = probes2(&s);
+    for &l0 in pr.iter() { for &l1 in pr.iter() {
+        if !s.in_range(l0) || !s.in_range(l1) { continue; }
+        r.case();
+        let (m0, m1) = (s.total - l1, s.total - l0);
+        let call = || format!("{} .reversed().between_lengths({:?}, {:?})  vs  .between_lengths({:?}, {:?}) reversed  [L = {:?}, tol = {:?}]", s.desc, m0, m1, l0, l1, s.total, s.tol);
+        let t = match s.travel(l0, l1) { Some(t) => t, None => continue };
+        if t < s.min_len() || (l1 - l0).abs() < s.min_len() || m0 < 0.0 || m1 < 0.0 { continue; }
+        dog::call(0, m0, m1, f64::NAN);
+        match guarded(|| rv.between_lengths(m0, m1)) {
+            Ok(Some(a)) => {
+                // the reversed portion runs from P(l1) back to P(l0) along the source
+                let va = pts_of(&a);
+                let mut exp = s.expected(l0, l1); exp.reverse();
+                r.check(d(&va[0], &s.p(l1)) <= s.eps + s.tol && d(&va[va.len() - 1], &s.p(l0)) <= s.eps + 2.0 * s.tol, "a portion of the reversed curve starts at P(l1) and ends at P(l0) of the source", || format!("{} -> {:?} .. {:?}", call(), va[0], va[va.len() - 1]));
+                r.check((a.length() - t).abs() <= s.eps + 4.0 * s.tol, "a portion of the reversed curve has the length of the corresponding source portion", || format!("{} -> {:?}, expected {:?}", call(), a.length(), t));
+                let inner: Vec<P> = if va.len() > 2 { va[1..va.len() - 1].to_vec() } else { vec![] };
+                r.check(in_order(&inner, &exp, s.eps), "a portion of the reversed curve visits the source vertices in reverse source order", || format!("{} -> {:?}", call(), va));
+            }
+            Ok(None) => r.check(false, "a well-posed portion of the reversed curve exists (through the seam when the source is closed)", call),
+            Err(why) => r.check(false, "between_lengths does not panic", || format!("{} -> {}", call(), why)),
+        }
+    } }
+}
+
+/// the consumers in airfoil/helpers.rs: whatever piece they select, it IS a portion of the section between the two
+/// stations they cut at (starts at one, ends at the other, on the section, in order, arc-length difference)
+fn check_consumers(r: &mut Report, c: &Curve2, desc: &str) {
+    use crate::airfoil::helpers::{extract_curve_beyond_station, extract_edge_sub_curve};
+    use crate::airfoil::InscribedCircle;
+    use crate::geom2::polyline2::SpanningRay;
+    use crate::geom2::UnitVec2;
+    use crate::geom2::Vector2;
+    use crate::Circle2;
+    let s = Src::new(c, desc.to_string());
+    dog::subject(&s.desc);
+    let n = s.v.len();
+    // cut positions: edge mid points and interior vertices (never the seam / the ends: the closest station is ambiguous there)
+    let mut cuts = vec![];
+    for i in 0..n - 1 { cuts.push(0.5 * (s.cu[i] + s.cu[i + 1])); if i > 0 { cuts.push(s.cu[i]); } }
+    if cuts.len() > 14 { cuts = cuts.iter().cloned().step_by(cuts.len() / 12).collect(); }
+    for &la in cuts.iter() { for &lb in cuts.iter() {
+        if (la - lb).abs() < 64.0 * s.tol + 1e-6 * s.total { continue; }
+        let (pa, pb) = (s.p(la), s.p(lb));
+        // both cut points must be unambiguous: no other part of the curve within 1e-3 L of them (hairpins, crossings)
+        if (0..n - 1).any(|i| { let mid = 0.5 * (s.cu[i] + s.cu[i + 1]); [la, lb].iter().any(|&l| (mid - l).abs() > 0.02 * s.total && (s.total - (mid - l).abs()) > 0.02 * s.total && super::c05::seg_dist(&s.v[i], &s.v[i + 1], &s.p(l)) < 1e-3 * s.total) }) { continue; }
+        let ctr = [(pa[0] + pb[0]) * 0.5, (pa[1] + pb[1]) * 0.5, 0.0];
+        let st = InscribedCircle::new(SpanningRay::new(to2(&pa), to2(&pb)), to2(&pa), to2(&pb), Circle2::new(ctr[0], ctr[1], 0.5 * d(&pa, &pb)));
+        for which in 0..4 {
+            r.case();
+            let (res, text) = match which {
+                0 => (guarded(|| extract_edge_sub_curve(c, &st, None)), "extract_edge_sub_curve(section, station, None)".to_string()),
+                1 => (guarded(|| extract_edge_sub_curve(c, &st, Some(0.75))), "extract_edge_sub_curve(section, station, Some(0.75))".to_string()),
+                2 => (guarded(|| extract_curve_beyond_station(c, &st, &UnitVec2::new_normalize(Vector2::new(1.0, 0.25)))), "extract_curve_beyond_station(section, station, (1, 0.25))".to_string()),
+                _ => (guarded(|| extract_curve_beyond_station(c, &st, &UnitVec2::new_normalize(Vector2::new(-0.5, -1.0)))), "extract_curve_beyond_station(section, station, (-0.5, -1))".to_string()),
+            };
+            let call = || format!("{} with section = {}, station cut at the section's points at lengths {:?} and {:?} ({:?}, {:?})", text, s.desc, la, lb, pa, pb);
+            match res {
+                Err(why) => r.check(false, "airfoil helpers: extracting a sub-curve does not panic", || format!("{} -> {}", call(), why)),
+                Ok(None) => {}
+                Ok(Some(piece)) => {
+                    let v = pts_of(&piece);
+                    let (x, y) = if d(&v[0], &pa) <= d(&v[0], &pb) { (la, lb) } else { (lb, la) };
+                    if s.travel(x, y).is_none() { r.check(false, "airfoil helpers: the extracted sub-curve is a portion of the section between the two cut stations", call); continue; }
+                    check_piece(r, &s, &piece, x, y, "airfoil helpers (extract_edge_sub_curve / extract_curve_beyond_station)", &call);
+                }
+            }
+        }
+    } }
+}
+
 const OPS: [&str; 7] = [".between_lengths", ".trim_front", ".trim_back", ".split_open_at_length", ".split_closed_at_lengths", ".between_lengths_by_control", ".reversed"];
-const BOUND: &str = "Curve2: 11 families with small integer/dyadic vertices (open, naturally closed, force-closed, uneven vertex density) x scales 2^-9, 1, 2^6, tol = 2^-16*scale; between_lengths over every ordered pair of probes {0, L, vertex lengths, vertex lengths -2tol/-tol/4/+tol/2/+3tol, edge mid and quarter points, -L, 2L}; trims and splits at every probe; between_lengths_by_control over (a, b, control) from {0, L, vertex lengths, edge mid points} (+ controls out of range); reversal at every probe; the same checks (reduced probe set) on every 5th extracted portion as a second portioning step";
+const BOUND: &str = "Curve2: 11 families with small integer/dyadic vertices (open, naturally closed, force-closed, uneven vertex density) x scales 2^-9, 1, 2^6, tol = 2^-16*scale; between_lengths over every ordered pair of probes {0, L, vertex lengths, vertex lengths -2tol/-tol/4/+tol/2/+3tol, edge mid and quarter points, -L, 2L}; trims and splits at every probe; between_lengths_by_control over (a, b, control) from {0, L, vertex lengths, edge mid points} (+ controls out of range); reversal at every probe; the same checks (reduced probe set) on every 5th extracted portion as a second portioning step; PLUS (wave 5) 29 more families: closed within tolerance (gap tol/2 .. tol) / gap just above tol, asymmetric non-convex closed hexagon (closed, force-closed, seam mid-edge, clockwise), hairpin, figure eight, single segment, tol in {0, 0.3, 1e-12}, offsets 1e3 / 1e6 / 1e8 from the origin, scales 2^-30 / 2^20, with tie probes (vertex lengths +-1 ulp, -5e-324, L + 1 ulp, -0.0, +-sqrt(tol)); long curves of 70 .. 4200 vertices (open stair, closed / force-closed comb) probed around vertex indices 1, 32, 64, 128, 1024, 4096, n/2, n-1; six scripts of up to six successive portioning steps checked against the original curve; reversal vs portioning for every pair of a reduced probe set; airfoil::helpers::{extract_edge_sub_curve, extract_curve_beyond_station} on every pair of cut points (edge mid points and interior vertices)";
 pub fn run() -> Option<Report> { Some(dog::run(BOUND, &OPS, run_inner)) }
 
 fn run_inner() -> Report {
@@ -371,8 +604,30 @@ fn run_inner() -> Report {
             let c = match Curve2::from_points(&v, tol, fc) { Ok(c) => c, Err(_) => continue };
             let ps: Vec<String> = v.iter().map(|p| format!("({:?},{:?})", p.x, p.y)).collect();
             let desc = format!("Curve2::from_points([{}], tol={:?}, force_closed={}) [{} x 2^{}]", ps.join(","), tol, fc, name, k);
-            check_curve(&mut r, &c, desc, 0, false);
+            check_curve(&mut r, &c, desc.clone(), 0, k == 0);
+            check_chains(&mut r, &c, &desc);
+            if k == 0 { check_reversal_pairs(&mut r, &c, &desc); check_consumers(&mut r, &c, &desc); }
         }
+    }
+    // wave 5 families
+    for (name, pts, tol, fc, ties) in extra_families() {
+        let v: Vec<Point2> = pts.iter().map(|q| Point2::new(q.0, q.1)).collect();
+        let desc = describe(&name, &v, tol, fc);
+        let c = match Curve2::from_points(&v, tol, fc) { Ok(c) => c, Err(_) => { r.check(false, "the curve of the enumerated family can be built", || desc.clone()); continue } };
+        if name.contains("closed") && !name.contains("gap") { r.check(c.is_closed(), "a curve whose end points are within tol of each other (or force-closed) is closed", || desc.clone()); }
+        if name.contains("gap") || name.contains("open") || name == "segment" { r.check(!c.is_closed(), "a curve whose end points are farther apart than tol is open", || desc.clone()); }
+        check_curve(&mut r, &c, desc.clone(), 0, ties);
+        check_chains(&mut r, &c, &desc);
+        check_reversal_pairs(&mut r, &c, &desc);
+        if tol < 0.1 { check_consumers(&mut r, &c, &desc); }
+    }
+    for (name, pts, tol, fc) in long_families() {
+        let v: Vec<Point2> = pts.iter().map(|q| Point2::new(q.0, q.1)).collect();
+        let desc = describe(&name, &v, tol, fc);
+        let c = match Curve2::from_points(&v, tol, fc) { Ok(c) => c, Err(_) => { r.check(false, "the curve of the enumerated family can be built", || desc.clone()); continue } };
+        r.check(c.count() == v.len() + if fc { 1 } else { 0 }, "a long curve keeps all its vertices", || desc.clone());
+        check_curve(&mut r, &c, desc.clone(), 0, false);
+        if c.count() <= 200 { check_chains(&mut r, &c, &desc); check_reversal_pairs(&mut r, &c, &desc); }
     }
     r
 }
